@@ -7,7 +7,7 @@ RULE = ('real ZMQReceiver / ZMQSender under the scripted simzmq world: 1-4 sourc
         'future requests, CLOSE, OOB, silences around the connection timeout); every third history adversarial; per-item outputs '
         'and state digests compared with the Gallina machines; non-trivial = at least one set returned / one publish; distinct by hash')
 
-PARTIAL = ['end-to-end clause over reconnects/restarts of both sides (C02_end_to_end over the network model) is explored in pipeline mode (see C03/C06 evidence), not proved', "C02_payload_and_topic_map (delivered payload = published payload under the mapped topic; unsubscribed/hidden topics never delivered) is checked by the implementation-side oracle ('topic-map', provenance), not yet proved", 'the codec clause is C09']
+PARTIAL = ['end-to-end clause over reconnects/restarts of both sides (C02_end_to_end over the network model) is explored in pipeline mode (see C03/C06 evidence), not proved', "C02_payload_and_topic_map is proved for non-balanced receivers (balanced ones: oracle 'topic-map' only); exactness of prefix filtering for explicit subscriptions assumes topic names without '/'", 'the codec clause is C09']
 
 def main():
     run = vlib.Run('C02')
